@@ -150,8 +150,13 @@ def gen_doc(rng, with_title=None, descs=None, fault=None, simple=False):
                 d = descs[0]        # two independent recipes made of identical blocks
             descs.append(d)
     first_block = True
+    printed = {}
     for gi, d in enumerate(descs):
-        texts, marks = gen_desc.print_desc(d, gen_desc.Spelling(rng))
+        if id(d) in printed and rng.random() < 0.6:
+            texts, marks = printed[id(d)]      # the second recipe spells its blocks exactly like the first: character-identical blocks
+        else:
+            texts, marks = gen_desc.print_desc(d, gen_desc.Spelling(rng))
+        printed[id(d)] = (texts, marks)
         for bi, t in enumerate(texts):
             t = t.replace("\r\n", "\n").replace("\r", "\n")
             t = "\n".join(l.rstrip(" \t") if not l.strip() else l for l in t.strip("\n").split("\n")).strip("\n")
